@@ -33,6 +33,7 @@ class WsDef:
         self.deferred = {}                     # var id -> lambda node
         self.fn_stack = []
         self.inlined = []
+        self.cur_line = None
 
     # ---- helpers ---------------------------------------------------------------------------------------
     def field_of(self, n):
@@ -77,6 +78,8 @@ class WsDef:
             return
         if st == "P" and idx is not None and idx in self.idx[fld]:
             return
+        if isinstance(node, dict) and node.get("line") is None and self.cur_line is not None:
+            node = dict(node, line=self.cur_line)
         self.problems.append({"field": fld, "node": node, "fn": self.cur(), "state": st,
                               "what": "%s is read %s" % (fld, "before this evaluation has defined it" if st == "U" else "while this evaluation has defined it only on some paths / for some elements")})
 
@@ -239,6 +242,8 @@ class WsDef:
         if not isinstance(s, dict):
             return
         k = s.get("k")
+        if s.get("line") is not None and k not in ("block", "if", "for", "rfor", "while"):
+            self.cur_line = s["line"]
         if k == "block":
             self.stmts(s.get("body", []))
         elif k == "omp":
